@@ -600,7 +600,7 @@ def cfg_gyr(tier, seed):
 def cfg_boo2d(tier, seed):
     out = [dict(l=2, N=2, F=3, topo=[[1], [0]], weighted=False), dict(l=4, N=2, F=3, topo=[[1], [0]], weighted=True)]
     if tier == "thorough":
-        out.append(dict(l=6, N=3, F=3, topo=TOPO3, weighted=False))
+        out.append(dict(l=4, N=3, F=3, topo=TOPO3, weighted=False))
     return out
 
 
